@@ -593,7 +593,10 @@ fn check_valid(s: &mut Session, fmt: Fmt, ch: u16, rate: u32, samples: &[i128], 
 		let mut o = vec![fnv(&bytes) as i128];
 		o.extend(got.obs());
 		let key = format!("{:?}/{}/{}", fmt, ch.min(3), match nframes { 0 => 0, 1..=8 => 1, 9..=1151 => 2, 1152 => 3, _ => 4 });
-		s.case("static_valid", term_static(fmt, ch, rate, samples), &o, if nframes > 0 { Some(key) } else { None });
+		let idx = s.case("static_valid", term_static(fmt, ch, rate, samples), &o, if nframes > 0 { Some(key) } else { None });
+		if samples.len() > 1000 || idx % 16 == 15 {
+			s.flush(); // spread the expensive cases over shards (they are evaluated in parallel)
+		}
 	} else {
 		s.eval_only("static_valid_monitor_only");
 	}
@@ -654,7 +657,7 @@ pub fn run(args: &Args) {
 		&args.out,
 		"From Coq Require Import ZArith List. Import ListNotations. Open Scope Z_scope.\nFrom KV Require Import Base.Corr C18.Run.",
 		"run",
-		40,
+		120,
 		"one case = one file (valid WAV of a given encoding/channels/length class, a truncation, a header or data corruption) loaded with StaticSoundData::from_cursor, or one streaming playback (file, start, seek sequence); distinct = distinct (encoding, channel class, length class) / (file, corrupted offset, value) / (file, start, seeks); non-trivial = at least one frame decoded or an error produced",
 	);
 	s.keep_case_text = true;
@@ -696,7 +699,7 @@ pub fn run(args: &Args) {
 		check_valid(&mut s, fmt, ch, rate, &samples, true);
 	}
 	// lengths around the packet size of symphonia's WAV reader (1152 frames) and a few thousand frames
-	let mut long_lengths = vec![1151usize, 1152, 1153, 2304, 2305, 3000 + rng.below(2000) as usize];
+	let mut long_lengths = vec![1151usize, 1152, 1153, 2304, 3000 + rng.below(2000) as usize, 2305];
 	if args.thorough {
 		long_lengths.extend([3456, 3457, 10_000, 20_000]);
 	}
@@ -885,7 +888,8 @@ pub fn run(args: &Args) {
 					s.fail(desc.clone(), format!("loading gave {}", g.short()), None)
 				}
 			}
-			let to_model = modelled(t) && (bytes.len() < 400 || cut % 97 == 0 || cut < 60) && fine;
+			let near_packet = cut >= 44 && matches!((cut - 44) % 1152, 0 | 1 | 1151);
+			let to_model = modelled(t) && (bytes.len() < 400 || cut % 397 == 0 || cut < 50 || near_packet) && fine;
 			if to_model {
 				s.case("truncation", term_bytes(t), &got.obs(), Some(format!("trunc/{}/{}", bi, cut)));
 			} else {
@@ -894,7 +898,7 @@ pub fn run(args: &Args) {
 			cut += if cut < 64 { 1 } else { step };
 		}
 		// header corruptions: every byte of the header, every other value
-		let full_model = bi < 2 || args.thorough;
+		let full_model = bi < 1 || args.thorough;
 		for off in 0..44usize {
 			for v in 0..=255u8 {
 				if v == bytes[off] {
@@ -946,7 +950,7 @@ pub fn run(args: &Args) {
 				if let Some(w) = bad {
 					s.fail(desc, w, if is_class_rate0 { Some("wav_sample_rate_zero_panics") } else { None });
 				}
-				if modelled(&c) && (full_model || rng.chance(1, 12)) {
+				if modelled(&c) && ((full_model && (v % 3 == 0 || v < 40 || v > 250)) || rng.chance(1, if bytes.len() < 400 { 40 } else { 1500 })) {
 					s.case("header_corruption", term_bytes(&c), &got.obs(), Some(format!("hdr/{}/{}/{}", bi, off, v)));
 				} else {
 					s.eval_only("header_corruption_monitor_only");
@@ -1010,7 +1014,11 @@ pub fn run(args: &Args) {
 				s.fail(desc, format!("streaming gave {} (loading: {})", p.open.short(), st.short()), None);
 				continue;
 			}
+			let tame = |fr: &[(f32, f32)]| fr.iter().all(|f| f.0.is_finite() && f.1.is_finite() && f.0.abs() < 1e18 && f.1.abs() < 1e18);
 			if let (Load::Ok { frames, .. }, Load::Ok { .. }, None) = (&st, &p.open, &p.error) {
+				if !tame(frames) {
+					continue; // playback of infinities / NaN is not a faithful observation of the ring
+				}
 				// streaming plays what the header announces: the loaded frames must be its prefix,
 				// and nothing but silence may follow
 				let mut pp = Played { open: p.open.clone(), num_frames: p.num_frames, out: p.out.clone(), issued_at: vec![], error: None, stopped: false, hang: false };
@@ -1025,7 +1033,7 @@ pub fn run(args: &Args) {
 	lap("corruptions done");
 	// ---------- (d) the scheduler model on symphonia's WAV packetisation -------------------------
 	for _ in 0..(3 * mul) {
-		let n = 1 + rng.below(2600) as usize;
+		let n = 1 + rng.below(1500) as usize;
 		let start = rng.below(n as u64 + 2) as usize;
 		let bytes = encode(Fmt::I16, 2, 48000, &index_coded(n));
 		let p = stream_play(&bytes, 48000, start, &[], usize::MAX);
